@@ -6,6 +6,17 @@ import time
 
 VERIF = os.path.dirname(os.path.dirname(os.path.abspath(__file__)))
 KNOWN = os.path.join(VERIF, "known_findings.json")
+EXCEPTIONS = os.path.join(VERIF, "sa", "tables", "exceptions.toml")
+
+
+def load_exceptions():
+    import tomllib
+
+    if not os.path.exists(EXCEPTIONS):
+        return {}
+    with open(EXCEPTIONS, "rb") as f:
+        d = tomllib.load(f)
+    return {e["key"]: e["reason"] for e in d.get("exception", [])}
 
 
 class Check:
@@ -30,6 +41,8 @@ class Check:
         self.undecided = []
         self.treehash = None
         self.distinct = set()
+        self.exceptions = load_exceptions()
+        self.excepted = []
 
     # ---- recording -------------------------------------------------------
     def rule(self, rid, text):
@@ -54,6 +67,12 @@ class Check:
         self.obligations += 1
         self.distinct.add((rule, key))
         full = key if key.startswith(rule) else "%s|%s" % (rule, key)
+        if full in self.exceptions:
+            # audited exception: violates the letter of the rule, read and found harmless (one reason per key)
+            self.discharged += 1
+            if full not in [e["key"] for e in self.excepted]:
+                self.excepted.append({"key": full, "reason": self.exceptions[full], "where": where})
+            return
         for v in self.violations:
             if v["key"] == full:
                 v.setdefault("more", []).append({"where": where, "msg": msg})
@@ -133,6 +152,7 @@ class Check:
             "known_findings_rederived": [v["key"] for v in kf],
             "known_findings_stale": stale,
             "new_violations": [v["key"] for v in new],
+            "audited_exceptions_used": self.excepted,
             "not_decided": self.undecided,
             "notes": self.notes[:60],
             "exhaustive": False,
